@@ -119,7 +119,7 @@ def run_group(g, seed, opts=None):
                 return res
         else:
             sl0 = None
-        r = ops.OpRunner(w, seed=seed, shim_extra=opts.get('shim', {}))
+        r = ops.OpRunner(w, seed=seed, shim_extra=opts.get('shim', {}), td_spelling=opts.get('td_spelling'))
         kw = {}
         if g['lab']['cmd'] == 'put' and opts.get('spellings'):
             kw['spellings'] = opts['spellings']
@@ -127,6 +127,12 @@ def run_group(g, seed, opts=None):
             kw['tty'] = True
         obs, raw = r.run(g['lab'], g['pre'], slots=sl0, **kw)
         st1, an1, sl1 = w.project()
+        if opts.get('gate_only'):
+            # only WHERE the entry went is judged (which trash directory, or nowhere), not what its Path= line says
+            slim = lambda st: dict(st, items=[{'t': i['t'], 'o': i['o'], 'date': i['date']} for i in st['items']])
+            st1 = slim(st1)
+            g = dict(g, allowed=[dict(al, post=slim(al['post'])) for al in g['allowed']])
+            an1 = [a for a in an1 if 'names unknown location' not in a and 'absolute Path written' not in a]
         res['obs'] = obs
         if raw is not None:
             res['run'] = {'argv': raw.get('argv'), 'cwd': raw.get('cwd'), 'exit': raw.get('exit'),
